@@ -27,12 +27,49 @@ def numeric(s):
     return "".join("&#x%X;" % ord(c) for c in s)
 
 
+def smt_str_re(c):
+    return '(str.to_re "\\u{%x}")' % ord(c)
+
+
 def build(run):
-    run.outside += ["whitespace / comment / processing-instruction handling in trim_element (DOM code)",
+    run.outside += ["comment / processing-instruction / mixed-content handling in trim_element (DOM code)",
                     "speech and braille equality (follows from canonical-MathML equality only through the rule interpreter)"]
     src = slicer.Source.get("src/interface.rs")
     fn = src.find("fn set_mathml")
     run.uses(fn)
+    # ---- Z-C17-d: the white-space collapsing regex of trim_element covers exactly the collapsible white space (space, tab, LF, CR) --------
+    te = src.find("fn trim_element")
+    ws_pat, ws_sp = tables.lazy_regex(src, "WHITESPACE_MATCH", within=te)
+    ws_const = te.find_stmt("const WHITESPACE")
+    run.uses(ws_sp, ws_const)
+    ws_chars = [slicer.unquote_char(t.text) if hasattr(slicer, "unquote_char") else None for t in slicer.lex(ws_const.text) if t.kind == "char"]
+    if not ws_chars or any(c is None for c in ws_chars):
+        import ast as _ast
+        ws_chars = []
+        for t in slicer.lex(ws_const.text):
+            if t.kind == "char":
+                body = t.text[1:-1]
+                m = re.match(r"\\u\{([0-9A-Fa-f]+)\}$", body)
+                ws_chars.append(chr(int(m.group(1), 16)) if m else _ast.literal_eval("'" + body + "'"))
+    W = "(re.union %s re.none)" % " ".join(smt_str_re(c) for c in sorted(set(ws_chars + [" ", "\t", "\n", "\r"])))
+    run.bound("Z-C17-d", "WHITESPACE_MATCH of trim_element (%r) against the collapsible white space {space, tab, LF, CR} named in the source comment and in the WHITESPACE constant (%s); all code points" % (ws_pat, " ".join("U+%04X" % ord(c) for c in ws_chars)))
+
+    def w_ws(mdl, pat=ws_pat):
+        t = "a" + mdl["s"] + "b"
+        out = rxsmt.replace_all_real(pat, " ", t)
+        expect = "a b" if all(ch in " \t\n\r" for ch in mdl["s"]) and mdl["s"] else None
+        if out is None or (expect is not None and out == expect):
+            return None
+        if expect is None and out == t:
+            return None
+        return ("whitespace-collapse-differs", "trim_element: WHITESPACE_MATCH %r turns %r into %r (collapsible white space must become one space, nothing else may be touched)" % (pat, t, out), {"text": t, "result": out})
+    run.smt("Z-C17-d.collapses_all_collapsible_white_space", "(declare-const s String)\n(assert (str.in_re s (re.+ %s)))\n(assert (not (str.in_re s %s)))" % (W, rxsmt.core_lang(ws_pat)),
+            get=("s",), witness=w_ws, vacuity="(declare-const s String)\n(assert (str.in_re s (re.+ %s)))" % W,
+            claim="every non-empty run of space / tab / LF / CR is matched as a whole (so it is replaced by one space)")
+    run.smt("Z-C17-d.collapses_nothing_else", "(declare-const s String)\n(assert (str.in_re s %s))\n(assert (not (str.in_re s (re.+ %s))))" % (rxsmt.core_lang(ws_pat), W),
+            get=("s",), witness=w_ws, vacuity="(declare-const s String)\n(assert (str.in_re s %s))" % rxsmt.core_lang(ws_pat),
+            claim="a match never contains anything but collapsible white space")
+
     pats = {}
     for n in ("MATHJAX_V2", "MATHJAX_V3", "NAMESPACE_DECL", "PREFIX", "HTML_ENTITIES"):
         pats[n], sp = tables.lazy_regex(src, n, within=fn)
